@@ -285,7 +285,9 @@ func (iter *DBIterator) materialize(src *kv.Entry) bool {
 			return false
 		}
 		iter.entry.Value = src.Value
-		iter.item.valueBuf = iter.entry.Value
+		// Item.ValueCopy appends into item.valueBuf; it must never alias storage
+		// owned by a memtable or a table block.
+		iter.item.valueBuf = iter.item.valueBuf[:0]
 	}
 	iter.item.e = &iter.entry
 	return true
